@@ -152,3 +152,51 @@ func init() {
 		o.def("notifIdsRandomUuid", "Bool", lbool(ok), "Notificator.Create draws the notification id with uuid.NewV4 (unique across processes, not a per-process counter)")
 	})
 }
+
+// C18 / C11: whoever proposed a catalogue change waits for the notification its apply sends — the
+// allocator loop without a timeout. Every path through the apply functions of the catalogue that
+// knows the notification id must therefore end in a Notify: a return that is not directly preceded
+// by one (other than the return of an entry that cannot even be decoded) parks the waiter for ever.
+func init() {
+	extractors = append(extractors, func(o *out) {
+		f := parseFile("storage/dataset_manager.go")
+		ok := true
+		silent := []string{}
+		for _, fn := range []string{"createDataset", "deleteDataset", "updatePartitionNodes"} {
+			fd := funcDecl(f, "DatasetManager", fn)
+			if fd == nil {
+				ok = false
+				continue
+			}
+			ast.Inspect(fd.Body, func(n ast.Node) bool {
+				if _, isLit := n.(*ast.FuncLit); isLit {
+					return false
+				}
+				b, isBlock := n.(*ast.BlockStmt)
+				var list []ast.Stmt
+				if isBlock {
+					list = b.List
+				} else if cc, isCase := n.(*ast.CaseClause); isCase {
+					list = cc.Body
+				} else {
+					return true
+				}
+				for i, st := range list {
+					r, isRet := st.(*ast.ReturnStmt)
+					if !isRet {
+						continue
+					}
+					if norm(r) == "returnerr" && i == 0 {
+						continue // `if err := proto.Unmarshal(...); err != nil { return err }`: nothing to notify about
+					}
+					if i == 0 || !strings.HasPrefix(norm(list[i-1]), "this.notificator.Notify(notificationId,") {
+						ok = false
+						silent = append(silent, fn)
+					}
+				}
+				return true
+			})
+		}
+		o.def("catalogueApplyAlwaysNotifies", "Bool", lbool(ok), "every return of createDataset / deleteDataset / updatePartitionNodes that knows the notification id is directly preceded by a Notify of that id")
+	})
+}
